@@ -95,6 +95,7 @@ def call (w m : String) (fwd : Bool) : List Ev × Ret :=
         (evs, ret)
       else ([], .unknown)
     | .panics => ([], .panics)
+    | .opaque => ([], .unknown)   -- body outside the shapes the translator understands
     | .wrapcb | .wrapret | .wrapmap =>
       if r.calls == 1 && r.hookKept then
         let (evs, ret) := innerCall w r.target
@@ -167,14 +168,15 @@ def specKind : String → List String → Option String
       else none
     else none
 
-/-- what the property demands of an entry point reached through any path: the hook method
-    of the same name runs exactly once, no other hook runs, its result is returned unchanged -/
+/-- what the property demands of an entry point reached through any path, for any number of
+    commands: the hook method of the same name runs exactly once with the caller's arguments, no other
+    hook runs, the wrapper itself never touches the inner client, the hook's result is returned unchanged -/
 def specAnswer (path : List String) (m : String) : String :=
   match specKind "client" path with
   | none => "nopath"
   | some k =>
     let iface := if k == "client" then clientIface else dedicatedIface
-    if iface.contains m then "hooks=" ++ m ++ ":1 ret=hook" else "nomethod"
+    if iface.contains m then "hooks=" ++ m ++ ":1 inner=0 ret=hook" else "nomethod"
 
 /-- projection of a model log to the oracle's vocabulary -/
 def hookCount (evs : List Ev) (m : String) : Nat :=
